@@ -547,3 +547,6 @@ func runC13(rc *core.RunCtx) {
 		rc.Res.Sample = map[string]any{"variant": v.Name, "op": op.Query, "plan": planDesc(plan), "sched": cfg.Sched.String(), "payloads": ps}
 	}
 }
+
+// SigOf is exported for the other scenarios.
+func SigOf(parts ...any) string { return sigOf(parts...) }
